@@ -14,6 +14,7 @@ import (
 	"github.com/ThreeDotsLabs/watermill/components/delay"
 	"github.com/ThreeDotsLabs/watermill/components/metrics"
 	"github.com/ThreeDotsLabs/watermill/message"
+	"github.com/ThreeDotsLabs/watermill/message/router/middleware"
 	"github.com/ThreeDotsLabs/watermill/verifharness/lib"
 	"github.com/prometheus/client_golang/prometheus"
 	"pgregory.net/rapid"
@@ -708,5 +709,57 @@ func TestRouterMetrics(t *testing.T) {
 		}
 		lib.Case(fmt.Sprintf("rm|%v|%v", twice, specs), nonSuccess || twice, cls...)
 		lib.Sample(map[string]any{"test": "RouterMetrics", "twice": twice, "outcomes(outcome,outputs)": strings.TrimSpace(fmt.Sprint(specs))})
+	})
+}
+
+// ---------- the handler metrics middleware counts every INVOCATION, also of the same message object ----------
+
+// Retry (or a broker that hands the same object over again) invokes the handler several times with one message object:
+// "every handler invocation is counted exactly once with the correct success label".
+func TestHandlerMetricsRepeatedInvocations(t *testing.T) {
+	rapid.Check(t, func(t *rapid.T) {
+		outcomes := rapid.SliceOfN(rapid.SampledFrom([]string{"error", "error", "success", "panic"}), 1, 5).Draw(t, "attemptOutcomes")
+		viaRetry := rapid.Bool().Draw(t, "retryOutsideTheMetricsMiddleware")
+		reg := prometheus.NewRegistry()
+		b := metrics.NewPrometheusMetricsBuilder(reg, "ns", "sub")
+		mw := b.NewRouterMiddleware().Middleware
+		attempt := 0
+		wantOK, wantFail, panics := 0, 0, 0
+		inner := func(m *message.Message) ([]*message.Message, error) {
+			o := outcomes[attempt%len(outcomes)]
+			attempt++
+			switch o {
+			case "error":
+				wantFail++
+				return nil, stderrors.New("attempt failed")
+			case "panic":
+				panics++ // counted once; which label a panicking invocation gets is not demanded (see DESIGN.md, C20)
+				panic("attempt panicked")
+			}
+			wantOK++
+			return nil, nil
+		}
+		// metrics sits inside a Recoverer (the router recovers panics around the whole chain in real use)
+		h := middleware.Recoverer(mw(inner))
+		msg := message.NewMessage("m", nil)
+		msg.SetContext(context.WithValue(context.Background(), "handler_name", "h"))
+		if viaRetry {
+			h = middleware.Retry{MaxRetries: len(outcomes) - 1, Multiplier: 1}.Middleware(h)
+			h(msg)
+		} else {
+			// the same message object handed to the handler again and again (redelivery without a copy)
+			for range outcomes {
+				h(msg)
+			}
+		}
+		hok, hfail := histCounts(t, reg, "ns_sub_handler_execution_time_seconds")
+		if hok+hfail != attempt {
+			t.Fatalf("violation: handler_execution_time_seconds counted %d invocations, the handler ran %d times with the same message object (outcomes %v, retry=%v)", hok+hfail, attempt, outcomes, viaRetry)
+		}
+		if hok < wantOK || hok > wantOK+panics || hfail < wantFail {
+			t.Fatalf("violation: handler_execution_time_seconds success=true:%d false:%d, the invocations were %d successful / %d failed / %d panicked (outcomes %v, retry=%v)", hok, hfail, wantOK, wantFail, panics, outcomes, viaRetry)
+		}
+		lib.Case(fmt.Sprintf("repeat|%v|%v", outcomes, viaRetry), attempt >= 2, "handler-metrics-repeated", fmt.Sprintf("invocations=%d", attempt))
+		lib.Sample(map[string]any{"test": "HandlerMetricsRepeatedInvocations", "outcomes": fmt.Sprint(outcomes), "via_retry": viaRetry, "invocations": attempt})
 	})
 }
